@@ -2,6 +2,7 @@ package main
 
 import (
 	"fmt"
+	"go/token"
 	"go/types"
 	"sort"
 	"strings"
@@ -133,6 +134,7 @@ func runC18(c *Ctx) {
 	// what the store is given is what the client sent: parsed payloads are owned copies
 	ruleOwnedBytes(c, "R18.j")
 	ruleRecycledObjectsReset(c, "R18.p")
+	ruleReplyShapeFromRequest(c, "R18.k")
 
 	rid = "R18.c"
 	c.rule(rid, "the example handlers Set and HSet store the value parameter itself (no transformation) into the record / hash")
@@ -626,4 +628,113 @@ func mayBeNilMessage(v ssa.Value, at *ssa.BasicBlock, d int, seen map[ssa.Value]
 		}
 	}
 	return ""
+}
+
+// ruleReplyShapeFromRequest: which kind of reply a handler builds (a bulk string or an array, a
+// value or a count) is decided by the request — "LPOP key" answers a bulk string, "LPOP key 2" an
+// array, however many elements the list still has. A test of an integer parameter against a
+// constant that selects between reply constructors must therefore see the parameter as the
+// client sent it, not a value into which stored data (a length the parameter was clamped to) has
+// been merged.
+func ruleReplyShapeFromRequest(c *Ctx, rid string) {
+	c.rule(rid, "example store: a comparison of an integer with a constant that decides between two different reply constructors (NewBulkMessage / NewArrayMessage / NewNilMessage / NewIntegerMessage ...) has, where the integer derives from a parameter of the handler, exactly that parameter as operand — not a phi that merges the parameter with a value computed from stored data")
+	replyCtor := func(b *ssa.BasicBlock) string {
+		seen := map[*ssa.BasicBlock]bool{}
+		var found []string
+		var walk func(b *ssa.BasicBlock, d int)
+		walk = func(b *ssa.BasicBlock, d int) {
+			if b == nil || seen[b] || d > 4 {
+				return
+			}
+			seen[b] = true
+			for _, ins := range b.Instrs {
+				if cc := callCommon(ins); cc != nil {
+					n := calleeName(cc)
+					if i := strings.LastIndex(n, ".New"); i >= 0 && strings.HasSuffix(n, "Message") && strings.Contains(n, "redis") {
+						found = append(found, n[i+1:])
+						return
+					}
+				}
+			}
+			for _, s := range b.Succs {
+				walk(s, d+1)
+			}
+		}
+		walk(b, 0)
+		sort.Strings(found)
+		return strings.Join(found, "|")
+	}
+	n := 0
+	for _, fn := range c.P.RepoFuncs(pkgExSrv) {
+		allInstrs(fn, func(ins ssa.Instruction) {
+			iff, ok := ins.(*ssa.If)
+			if !ok {
+				return
+			}
+			cmp, ok := iff.Cond.(*ssa.BinOp)
+			if !ok || (cmp.Op != token.EQL && cmp.Op != token.NEQ) {
+				return
+			}
+			var op ssa.Value
+			if _, isC := constInt(cmp.Y); isC {
+				op = cmp.X
+			} else if _, isC := constInt(cmp.X); isC {
+				op = cmp.Y
+			} else {
+				return
+			}
+			if !isIntType(op.Type()) {
+				return
+			}
+			b := iff.Block()
+			if len(b.Succs) != 2 {
+				return
+			}
+			a0, a1 := replyCtor(b.Succs[0]), replyCtor(b.Succs[1])
+			if a0 == "" || a1 == "" || a0 == a1 {
+				return
+			}
+			// does the operand derive from an integer parameter?
+			var params []*ssa.Parameter
+			pure := true
+			seen := map[ssa.Value]bool{}
+			var walk func(v ssa.Value, d int)
+			walk = func(v ssa.Value, d int) {
+				if v == nil || seen[v] || d > 6 {
+					return
+				}
+				seen[v] = true
+				switch x := v.(type) {
+				case *ssa.Parameter:
+					params = append(params, x)
+				case *ssa.Phi:
+					for _, e := range x.Edges {
+						walk(e, d+1)
+					}
+				case *ssa.Const:
+				default:
+					pure = false
+				}
+			}
+			walk(op, 0)
+			if len(params) == 0 {
+				return
+			}
+			n++
+			c.analysed(fn)
+			key := fmt.Sprintf("%s/reply-shape#%d", fnName(fn), n)
+			_, direct := op.(*ssa.Parameter)
+			if direct {
+				c.ok(rid, key, c.P.instrPos(iff), "the reply shape ("+a0+" / "+a1+") is selected by the parameter "+op.Name()+" as received")
+				return
+			}
+			why := "the parameter reaches the test merged with other values"
+			if !pure {
+				why = "the parameter reaches the test merged with a value computed from stored data"
+			}
+			c.bad(rid, key, c.P.instrPos(iff), "the reply shape ("+a0+" / "+a1+") is selected by a value that is no longer the client's "+params[0].Name()+": "+why+" — the same request is answered in a different shape depending on what is stored")
+		})
+	}
+	c.count("reply-shape-tests-on-parameters", n)
+	c.floor("reply-shape-tests-on-parameters", 1)
 }
